@@ -15,8 +15,9 @@
    The same holds for histories that also reset() bound properties (coq/PropGrowLazyMore.v: C06_network_with_resets_one_pass), and a
    reset binding is dead and no longer in the registry that evaluateAll iterates (C06_reset_binding_never_evaluated_again); it owns
    no subscription any more (C07_reset_disconnects, C10_no_orphan_subscription).
-   PARTIAL: mixed worlds (immediate and evaluator-driven bindings together, several evaluators, acting observers, replacement and
-   destruction) are covered by the extracted checker PropCheck.check_c06_after_evalall on every evaluateAll of every generated
+   The networks may use SEVERAL evaluators (bindings and evaluateAll calls through any of them): the theorems speak about the bindings
+   registered with the evaluator `ev` that is asked to evaluate; the others are only marked (C06_several_evaluators_example).
+   PARTIAL: mixed worlds (immediate and evaluator-driven bindings together, acting observers, replacement and destruction) are covered by the extracted checker PropCheck.check_c06_after_evalall on every evaluateAll of every generated
    history and by correspondence. *)
 From KDB Require Import Util PropDefs PropProofs.
 From KDB Require PropAbs PropAbsLazy PropCheck PropSim PropSimLazy PropGrowLazy PropGrowLazyMore PropReg.
@@ -84,7 +85,7 @@ Theorem C06_assignment_only_marks :
   forall fn rtl ev, ev <> 0 -> forall f w p v w',
     PropSimLazy.LSC ev w -> PropSimLazy.LCOH fn w -> set_helper fn rtl (S f) w p v = (w', None) ->
     PropSimLazy.LSC ev w' /\ PropSimLazy.LCOH fn w' /\ PropSimLazy.LFR w w' /\ (forall q, q <> p -> values w' q = values w q).
-Proof. exact PropSimLazy.lazy_assignment. Qed.
+Proof. intros fn rtl ev _. exact (PropSimLazy.lazy_assignment fn rtl ev). Qed.
 Print Assumptions C06_assignment_only_marks.
 
 Theorem C06_one_pass_consistent :
@@ -95,7 +96,7 @@ Theorem C06_one_pass_consistent :
     PropSimLazy.LSC ev w' /\ PropSimLazy.LCOH fn w' /\
     forall q x pr z, In q (PropSimLazy.regs_of w (ep_registry st)) -> PropSimLazy.lz_of w' q = Some x -> lookup (w_props w') q = Some pr ->
       PropCheck.den_node fn (values w') (b_root x) = Some z -> pr_value pr = z.
-Proof. exact PropSimLazy.lazy_evalall_consistent. Qed.
+Proof. intros fn rtl ev _. exact (PropSimLazy.lazy_evalall_consistent fn rtl ev). Qed.
 Print Assumptions C06_one_pass_consistent.
 
 (* the state conditions hold in every world reached by a history of a growing network of evaluator-driven bindings (LSND: dirty
@@ -103,7 +104,7 @@ Print Assumptions C06_one_pass_consistent.
    order is duplicate free and is a dependency order) *)
 Theorem C06_state_conditions_reachable :
   forall fn rtl ev, ev <> 0 -> forall f ops w,
-    PropSimLazy.LSC ev w -> PropGrowLazy.LSND fn w -> PropGrowLazy.LREG ev w -> PropGrowLazy.lazy_run_ok fn rtl ev f w ops ->
+    PropSimLazy.LSC ev w -> PropGrowLazy.LSND fn w -> PropGrowLazy.LREG ev w -> PropGrowLazy.lazy_run_ok fn rtl f w ops ->
     PropSimLazy.LSC ev (fold_left (step fn rtl (S f)) ops w) /\ PropGrowLazy.LSND fn (fold_left (step fn rtl (S f)) ops w) /\
     PropGrowLazy.LREG ev (fold_left (step fn rtl (S f)) ops w).
 Proof. exact PropGrowLazy.lazy_grow_coherent. Qed.
@@ -113,7 +114,7 @@ Print Assumptions C06_state_conditions_reachable.
    registered bound property equal to its expression recomputed from scratch - no further premise *)
 Theorem C06_reachable_one_pass :
   forall fn rtl ev, ev <> 0 -> forall f ops e w',
-    PropGrowLazy.lazy_run_ok fn rtl ev f world0 ops ->
+    PropGrowLazy.lazy_run_ok fn rtl f world0 ops ->
     lookup (w_bevs (run fn rtl (S f) ops)) e = Some ev ->
     step1 fn rtl (S f) (run fn rtl (S f) ops) (BevEvalAll e) = (w', None) ->
     forall st, nth_error (w_evps (run fn rtl (S f) ops)) ev = Some st ->
@@ -125,7 +126,7 @@ Print Assumptions C06_reachable_one_pass.
 (* ... and for histories in which bound properties are also reset(): lazy_run2_ok = the growing-network operations plus reset *)
 Theorem C06_network_with_resets_one_pass :
   forall fn rtl ev, ev <> 0 -> forall f ops e w',
-    PropGrowLazyMore.lazy_run2_ok fn rtl ev f world0 ops ->
+    PropGrowLazyMore.lazy_run2_ok fn rtl f world0 ops ->
     lookup (w_bevs (run fn rtl (S f) ops)) e = Some ev ->
     step1 fn rtl (S f) (run fn rtl (S f) ops) (BevEvalAll e) = (w', None) ->
     forall st, nth_error (w_evps (run fn rtl (S f) ops)) ev = Some st ->
@@ -149,7 +150,7 @@ Example C06_reset_example :
   let fn := fun (f : nat) (l : list Z) => Some (fold_right Z.add (Z.of_nat f) l) in
   let ops := [PNew 0 1%Z; BevNew 0; PBind 1 (EOp1 1 (EProp 0)) (MEvaluator 0); PBind 2 (EOp1 2 (EProp 1)) (MEvaluator 0);
               PReset 1; PSet 1 20%Z WSet; PSet 0 7%Z WSet] in
-  PropGrowLazyMore.lazy_run2_ok fn true 1 7 world0 ops /\
+  PropGrowLazyMore.lazy_run2_ok fn true 7 world0 ops /\
   map (fun e => match e with EvVal v => v | _ => None end)
       (filter (fun e => match e with EvVal _ => true | _ => false end) (w_trace (run fn true 8 (ops ++ [BevEvalAll 0; PGet 1; PGet 2]))))
   = [Some 22%Z; Some 20%Z].
@@ -191,13 +192,26 @@ Example C06_replaced_binding_example :
   filter (fun e => match e with EvFn _ => true | _ => false end) (firstn 3 (w_trace (run fn true 8 (ops ++ [BevEvalAll 0])))) = [EvFn 3].
 Proof. vm_compute. repeat split; reflexivity. Qed.
 
+(* non-vacuity, several evaluators: property 1 is bound through evaluator A (index 1), property 2 = f(p1) through evaluator B (index 2);
+   the history is a lazy_run_ok history; evaluateAll(B) alone recomputes 2 from the (still stale) 1, evaluateAll(A) then updates 1 and
+   only marks 2, a second evaluateAll(B) brings 2 up to date *)
+Example C06_several_evaluators_example :
+  let fn := fun (f : nat) (l : list Z) => Some (fold_right Z.add (Z.of_nat f) l) in
+  let ops := [PNew 0 1%Z; BevNew 0; BevNew 1; PBind 1 (EOp1 1 (EProp 0)) (MEvaluator 0); PBind 2 (EOp1 2 (EProp 1)) (MEvaluator 1);
+              PSet 0 10%Z WSet; BevEvalAll 1; PGet 2; BevEvalAll 0; PGet 1; PGet 2; BevEvalAll 1; PGet 2] in
+  PropGrowLazy.lazy_run_ok fn true 7 world0 ops /\
+  map (fun e => match e with EvVal v => v | _ => None end)
+      (filter (fun e => match e with EvVal _ => true | _ => false end) (w_trace (run fn true 8 ops)))
+  = [Some 13%Z; Some 4%Z; Some 11%Z; Some 4%Z].
+Proof. split; [vm_compute; repeat split; reflexivity|vm_compute; reflexivity]. Qed.
+
 (* non-vacuity of the premises: a chain of two evaluator-driven bindings created in dependency order is such a history, its
    registration order is duplicate free and dependency ordered *)
 Example C06_premises_example :
   let fn := fun (f : nat) (l : list Z) => Some (fold_right Z.add (Z.of_nat f) l) in
   let ops := [PNew 0 1%Z; BevNew 0; PBind 1 (EOp1 1 (EProp 0)) (MEvaluator 0); PBind 2 (EOp1 2 (EProp 1)) (MEvaluator 0); PSet 0 10%Z WSet] in
   let w := run fn true 8 ops in
-  PropGrowLazy.lazy_run_ok fn true 1 7 world0 ops /\ lookup (w_bevs w) 0 = Some 1 /\
+  PropGrowLazy.lazy_run_ok fn true 7 world0 ops /\ lookup (w_bevs w) 0 = Some 1 /\
   (exists st, nth_error (w_evps w) 1 = Some st /\ PropSimLazy.regs_of w (ep_registry st) = [1; 2]) /\
   PropSimLazy.lchain w [1; 2].
 Proof.
